@@ -109,7 +109,8 @@ def _run(pm: ProgramModel, ctx: Ctx, mb: ModelBuilder, cd: Codec) -> None:
     values = {"none": None, "true": True, "false": False, "int": 7, "zero": 0, "zero-float": 0.0,
               "empty-map": {}, "negative-int": -3, "float": 2.5,
               "str": "some text", "list": [1, 2.5, "a"], "list-with-bool": [1, True],
-              "nested-map": {"k": 1, "inner": {"x": "y"}}, "empty-list": []}
+              "nested-map": {"k": 1, "inner": {"x": "y"}}, "empty-list": [],
+              "numeric-string": "10", "exponent-string": "1e3", "bool-string": "true", "float-integral": 6.0}
     # containers by number and kind of items (a list of one item is not a shorter list of two)
     for sk, sv in (("int", 7), ("zero", 0), ("negative-int", -3), ("float", 2.5), ("bool", True), ("str", "a")):
         values[f"list-of-one:{sk}"] = [sv]
